@@ -33,6 +33,9 @@ def load_known():
 
 def build_model(defs=()):
     m = modelmod.Model(defs=defs)
+    m.config = tuple(defs)
+    m.has_lss = 'USE_LSS=0' not in m.config
+    m.has_csdo = 'USE_CSDO=0' not in m.config
     canon.infer_param_aliases(m, api.is_internal)
     return m
 
@@ -52,6 +55,12 @@ def run_property(pid, tier, m=None, configs=None, quiet=False):
         if os.environ.get('VERIF_BIGCFG', '1') != '0':
             cfgs.append(('CO_SSDO_N=3', 'CO_CSDO_N=3', 'CO_EMCY_N=40', 'CO_RPDO_N=5', 'CO_TPDO_N=6'))
             cfgs.append(('CO_SSDO_N=1', 'CO_CSDO_N=2', 'CO_EMCY_N=9', 'CO_RPDO_N=2', 'CO_TPDO_N=3'))
+            # optional services compiled out (the reset sequence, the frame cascade and the node initialisation contain
+            # `#if USE_LSS` / `#if USE_CSDO` sections: what is inside them must not be needed by the other services)
+            if pid != 'C18':
+                cfgs.append(('USE_LSS=0',))
+            if pid != 'C19':
+                cfgs.append(('USE_CSDO=0',))
     all_findings = []
     broken = []
     obligations = []
@@ -217,7 +226,17 @@ def replay(path):
     return 0
 
 
+def _on_timeout(signum, frame):
+    print('ANALYSIS-BROKEN: wall-clock budget exceeded (VERIF_TIMEOUT=%s s) - the analysis did not terminate in time' %
+          os.environ.get('VERIF_TIMEOUT', '900'))
+    sys.stdout.flush()
+    os._exit(2)
+
+
 def main():
+    import signal
+    signal.signal(signal.SIGALRM, _on_timeout)
+    signal.alarm(int(os.environ.get('VERIF_TIMEOUT', '900')))
     ap = argparse.ArgumentParser()
     ap.add_argument('prop', nargs='?')
     ap.add_argument('--tier', default=os.environ.get('VERIF_TIER', 'quick'))
